@@ -5,6 +5,7 @@ package main
 import (
 	"fmt"
 	"go/token"
+	"go/types"
 
 	"golang.org/x/tools/go/ssa"
 )
@@ -252,7 +253,114 @@ func runC12(c *Ctx) {
 				}
 			}
 		})
-		return s, search, pos, why
+		if s != "" && search != nil {
+			return s, search, pos, why
+		}
+		// policy form: the exported function hands a strictness predicate and a search routine, as closures, to a
+		// shared helper, which must use the first as the branch that extends the sequence and call the second
+		var predCl, searchCl *ssa.Function
+		var s2 string
+		var search2 *ssa.Function
+		var pos2 token.Pos
+		isCmpFV := func(cl *ssa.Function, v ssa.Value) bool {
+			// the comparison function as captured by the closure (directly or through its cell)
+			for i, fv := range cl.FreeVars {
+				_ = i
+				if v == ssa.Value(fv) {
+					return isYieldLikeCmp(fv.Type())
+				}
+				if a, ok := loadAddr(v); ok && a == ssa.Value(fv) {
+					return true
+				}
+			}
+			return false
+		}
+		for _, cl := range fn.AnonFuncs {
+			allInstrs(cl, func(in ssa.Instruction) {
+				switch x := in.(type) {
+				case *ssa.Return:
+					if len(x.Results) != 1 {
+						return
+					}
+					bo, ok := x.Results[0].(*ssa.BinOp)
+					if !ok || !isConstInt(bo.Y, 0) {
+						return
+					}
+					call, ok := bo.X.(*ssa.Call)
+					if !ok || !isCmpFV(cl, call.Call.Value) {
+						return
+					}
+					switch bo.Op {
+					case token.GEQ:
+						predCl, s2, pos2 = cl, "GE", bo.Pos()
+					case token.GTR:
+						predCl, s2, pos2 = cl, "GT", bo.Pos()
+					}
+				case *ssa.Call:
+					cal := x.Call.StaticCallee()
+					if cal == nil {
+						return
+					}
+					o := origin(cal)
+					if (o.Pkg != nil && o.Pkg.Pkg.Path() == "slices" && o.Name() == "BinarySearchFunc") || (o.Blocks != nil && o.Pkg != nil && o.Pkg.Pkg.Name() == "slice" && len(o.Params) == 3) {
+						searchCl, search2 = cl, o
+					}
+				}
+			})
+		}
+		if predCl == nil || searchCl == nil || predCl == searchCl {
+			return s, search, pos, why
+		}
+		// both closures go to one helper call; the predicate parameter decides a branch there, the search parameter is called
+		okUse := false
+		allInstrs(fn, func(in ssa.Instruction) {
+			call, ok := in.(*ssa.Call)
+			if !ok {
+				return
+			}
+			h := staticCallee(&call.Call)
+			if h == nil || h.Blocks == nil {
+				return
+			}
+			pi, si := -1, -1
+			for i, a := range call.Call.Args {
+				if mc, ok := a.(*ssa.MakeClosure); ok {
+					if mc.Fn == ssa.Value(predCl) {
+						pi = i
+					}
+					if mc.Fn == ssa.Value(searchCl) {
+						si = i
+					}
+				}
+			}
+			if pi < 0 || si < 0 || pi >= len(h.Params) || si >= len(h.Params) {
+				return
+			}
+			branches, searches := false, false
+			allInstrs(h, func(in2 ssa.Instruction) {
+				c2, ok := in2.(*ssa.Call)
+				if !ok {
+					return
+				}
+				if c2.Call.Value == ssa.Value(h.Params[pi]) {
+					for _, r := range referrersOf(c2) {
+						if _, isIf := r.(*ssa.If); isIf {
+							branches = true
+						}
+					}
+				}
+				if c2.Call.Value == ssa.Value(h.Params[si]) {
+					searches = true
+				}
+			})
+			if branches && searches {
+				okUse = true
+			}
+		})
+		if !okUse {
+			return "", nil, pos2, "the strictness predicate and the search routine are not both used by the shared helper"
+		}
+		return s2, search2, pos2, ""
 	}
 	for _, tc := range []struct{ name, wantS, wantL string }{{"LNDSFunc", "GE", "Right"}, {"LISFunc", "GT", "Left"}} {
 		fn := P.Func("slice", "", tc.name)
@@ -296,4 +404,14 @@ func runC12(c *Ctx) {
 func isVarargsTemp(v ssa.Value) bool {
 	al, ok := v.(*ssa.Alloc)
 	return ok && (al.Comment == "varargs" || al.Comment == "slicelit")
+}
+
+// isYieldLikeCmp: a comparison function type func(a, b T) int.
+func isYieldLikeCmp(t types.Type) bool {
+	sig, ok := t.Underlying().(*types.Signature)
+	if !ok || sig.Params().Len() != 2 || sig.Results().Len() != 1 {
+		return false
+	}
+	b, ok := sig.Results().At(0).Type().Underlying().(*types.Basic)
+	return ok && b.Info()&types.IsInteger != 0
 }
